@@ -20,6 +20,8 @@
 #include <fcppt/container/raw_vector/object.hpp>
 #include <fcppt/optional/object.hpp>
 
+#include <limits>
+
 #include <algorithm>
 #include <forward_list>
 #include <iterator>
@@ -1045,6 +1047,90 @@ static void buffer_growth()
       }
 }
 
+// ---------------------------------------------------------------- comparison over element types
+// ==, !=, <, <=, >, >= of raw_vector<T> for every pair of vectors of length 0..3 over a boundary alphabet of T
+// (type limits, -1/0/1; for floating point also -0.0, NaN and the infinities): the operators are defined
+// element-wise through T's own == and < (std::equal / std::lexicographical_compare on plain std::vectors).
+template <class T> static void comparison_family(char const *tn, std::vector<T> const &alphabet)
+{
+  using rvt = fcppt::container::raw_vector::object<T>;
+  std::vector<std::vector<T>> all{{}};
+  for (std::size_t len = 1; len <= 3; ++len)
+  {
+    std::size_t total = 1;
+    for (std::size_t i = 0; i < len; ++i)
+      total *= alphabet.size();
+    for (std::size_t a = 0; a < total; ++a)
+    {
+      std::vector<T> v;
+      std::size_t x = a;
+      for (std::size_t i = 0; i < len; ++i)
+      {
+        v.push_back(alphabet[x % alphabet.size()]);
+        x /= alphabet.size();
+      }
+      all.push_back(v);
+    }
+  }
+  std::string const fn = std::string("raw_vector_comparison<") + tn + ">";
+  auto show = [](std::vector<T> const &v) {
+    std::string o = "[";
+    for (T const &e : v)
+      o += std::to_string(static_cast<long double>(e)) + " ";
+    return o + "]";
+  };
+  for (auto const &ma : all)
+  {
+    rvt const a(ma.begin(), ma.end());
+    for (auto const &mb : all)
+    {
+      if (!vrt::begin_text(fn.c_str(), fn + " " + show(ma) + " vs " + show(mb)))
+        continue;
+      rvt const b(mb.begin(), mb.end());
+      vrt::nontrivial(!ma.empty() && !mb.empty());
+      vrt::maybe_sample();
+      // reference: == is element-wise ==, < is the lexicographical comparison through the elements' <, and the other four
+      // are derived from these two the classical way (a > b is b < a, a <= b is !(b < a), a >= b is !(a < b)).  For totally
+      // ordered elements that is what std::vector gives too; with NaN elements C++20's std::vector derives <=, >, >= from
+      // <=> instead (unordered => false), which the documentation of raw_vector does not promise, so it is not demanded.
+      bool const eq = ma.size() == mb.size() && std::equal(ma.begin(), ma.end(), mb.begin());
+      bool const lt = std::lexicographical_compare(ma.begin(), ma.end(), mb.begin(), mb.end());
+      bool const gt = std::lexicographical_compare(mb.begin(), mb.end(), ma.begin(), ma.end());
+      VRT_CHECK((a == b) == eq && (a != b) == !eq, fn + ":equality", "== gives %d, element-wise %d", int(a == b), int(eq));
+      VRT_CHECK((a < b) == lt && (a > b) == gt && (a <= b) == !gt && (a >= b) == !lt, fn + ":order",
+                "< gives %d, lexicographical %d; > gives %d, lexicographical %d; <= %d, >= %d", int(a < b), int(lt), int(a > b), int(gt), int(a <= b), int(a >= b));
+    }
+  }
+}
+template <class T> static std::vector<T> int_alphabet()
+{
+  using L = std::numeric_limits<T>;
+  std::vector<T> r{L::min(), static_cast<T>(0), static_cast<T>(1), L::max(), static_cast<T>(L::max() / 2 + 1)};
+  if (L::is_signed)
+    r.push_back(static_cast<T>(-1));
+  return r;
+}
+template <class T> static std::vector<T> float_alphabet()
+{
+  using L = std::numeric_limits<T>;
+  return {T(0), -T(0), T(1), -T(1), L::quiet_NaN(), L::infinity(), -L::infinity()};
+}
+static void raw_vector_comparison_types()
+{
+  comparison_family<char>("char", int_alphabet<char>());
+  comparison_family<signed char>("signed char", int_alphabet<signed char>());
+  comparison_family<unsigned char>("unsigned char", int_alphabet<unsigned char>());
+  comparison_family<short>("short", int_alphabet<short>());
+  comparison_family<unsigned short>("unsigned short", int_alphabet<unsigned short>());
+  comparison_family<int>("int", int_alphabet<int>());
+  comparison_family<unsigned>("unsigned", int_alphabet<unsigned>());
+  comparison_family<long long>("long long", int_alphabet<long long>());
+  comparison_family<unsigned long long>("unsigned long long", int_alphabet<unsigned long long>());
+  comparison_family<wchar_t>("wchar_t", int_alphabet<wchar_t>());
+  comparison_family<float>("float", float_alphabet<float>());
+  comparison_family<double>("double", float_alphabet<double>());
+}
+
 int main(int argc, char **argv)
 {
   vrt::parse_args(argc, argv);
@@ -1074,5 +1160,6 @@ int main(int argc, char **argv)
   }, 7200);
   vrt::shard("raw_vector_growth_lattice", [] { raw_vector_growth(); });
   vrt::shard("buffer_growth_lattice", [] { buffer_growth(); });
+  vrt::shard("raw_vector_comparison_types", [] { raw_vector_comparison_types(); });
   return vrt::run(argc, argv);
 }
